@@ -342,8 +342,8 @@ impl Prop for C09 {
         vec![
             ph("all labelled trees n<=4 x orientations x orders x bases", self.enum_small.len() as u64),
             ph("all labelled trees n=5 x orientations x orders x bases", tier.pick(0, self.enum_n5.len() as u64)),
-            ph("random trees n=2..12 (chains, stars, caterpillars, brooms, Pruefer)", tier.pick(20_000, 300_000)),
-            ph("invalid quote sets", tier.pick(10_000, 150_000)),
+            ph("random trees n=2..12 (chains, stars, caterpillars, brooms, Pruefer)", tier.pick(20_000, 2_000_000)),
+            ph("invalid quote sets", tier.pick(10_000, 1_000_000)),
         ]
     }
     fn exhaustive(&self, _tier: Tier) -> bool {
